@@ -76,7 +76,8 @@ Definition table_search (t : table) (k : bytes) (v : N) (best : option rec) : op
 Definition in_range (t : table) (k : bytes) : bool :=
   bytes_leb (t_min t) k && bytes_leb k (t_max t).
 
-(** One step of the scans in searchL0SST / ingestBuffer.search. *)
+(** One step of the scans in searchL0SST (newest table first since the fix of
+    the equal-version tie) / ingestBuffer.search. *)
 Definition scan_step (k : bytes) (v : N) (best : option rec) (t : table) : option rec :=
   let cur := match best with Some b => r_ver b | None => 0 end in
   if negb (in_range t k) then best
@@ -148,7 +149,7 @@ Definition get (s : state) (k : bytes) (v : N) : option rec :=
   match first_some (mem_get k v (st_mem s) :: map (fun m => mem_get k v (snd m)) (rev (st_imms s))) with
   | Some r => Some r
   | None =>
-      match scan_tables k v (st_l0 s) None with
+      match scan_tables k v (rev (st_l0 s)) None with
       | Some r => Some r
       | None => first_some (map (level_get k v) (st_lvls s))
       end
